@@ -7,6 +7,8 @@ from .framework import rule, Ob, fmt_trace, values_in, deep_values
 from .model import AnalysisError, dotted
 from .values import V
 
+MUTATOR_METHODS = {'pop', 'popitem', 'update', 'setdefault', 'clear', 'append', 'extend', 'remove', 'insert',
+                   'add', 'discard', 'appendleft', 'sort', 'reverse'}
 MUTABLE_CTORS = {'dict', 'list', 'set', 'defaultdict', 'OrderedDict', 'deque', 'bytearray', 'Counter'}
 
 
@@ -24,17 +26,43 @@ def _is_mutable_display(node, prog, module):
 def i2(ctx):
     obs = []
     prog = ctx.prog
-    # (1) class bodies: no attribute bound to a mutable container (it would be shared by every instance)
+    # (1) class bodies: an attribute bound to a mutable container at class level is one object shared by every
+    #     instance; that is a defect when methods mutate it through the instance and __init__ does not give each
+    #     instance its own (a read-only lookup table at class level is fine)
     for cname, ci in sorted(prog.classes.items()):
         bad = None
         for n in ci.node.body:
-            if isinstance(n, ast.Assign) and _is_mutable_display(n.value, prog, ci.module):
-                bad = n
-            if isinstance(n, ast.AnnAssign) and n.value is not None and _is_mutable_display(n.value, prog, ci.module):
+            tgt = None
+            if isinstance(n, ast.Assign) and _is_mutable_display(n.value, prog, ci.module) and len(n.targets) == 1 \
+                    and isinstance(n.targets[0], ast.Name):
+                tgt = n.targets[0].id
+            if isinstance(n, ast.AnnAssign) and n.value is not None and _is_mutable_display(n.value, prog, ci.module) \
+                    and isinstance(n.target, ast.Name):
+                tgt = n.target.id
+            if tgt is None:
+                continue
+            rebound = False
+            init = ci.methods.get('__init__')
+            if init is not None:
+                rebound = any(isinstance(x, ast.Attribute) and isinstance(x.ctx, ast.Store) and x.attr == tgt
+                              and isinstance(x.value, ast.Name) and x.value.id == 'self' for x in ast.walk(init.node))
+            mutated = False
+            for f in ci.methods.values():
+                for x in ast.walk(f.node):
+                    if isinstance(x, ast.Subscript) and isinstance(x.ctx, (ast.Store, ast.Del)) \
+                            and isinstance(x.value, ast.Attribute) and x.value.attr == tgt:
+                        mutated = True
+                    if isinstance(x, ast.Call) and isinstance(x.func, ast.Attribute) and x.func.attr in MUTATOR_METHODS \
+                            and isinstance(x.func.value, ast.Attribute) and x.func.value.attr == tgt:
+                        mutated = True
+                    if isinstance(x, ast.AugAssign) and isinstance(x.target, ast.Attribute) and x.target.attr == tgt:
+                        mutated = True
+            if mutated and not rebound:
                 bad = n
         obs.append(Ob('I2', '%s/no-class-level-container' % cname, bad is None,
-                      'class %s binds a mutable container at class level (%s): it is one object shared by every instance '
-                      'in the process, so state of one cache/deque/index leaks into another' %
+                      'class %s binds a mutable container at class level (%s), mutates it through its instances and '
+                      'never gives an instance its own: it is one object shared by every instance in the process, so '
+                      'state of one cache/deque/index leaks into another' %
                       (cname, ast.unparse(bad)[:60] if bad is not None else ''),
                       'diskcache/%s.py:%d' % (ci.module, bad.lineno) if bad is not None else
                       'diskcache/%s.py:%d' % (ci.module, ci.node.lineno)))
